@@ -413,12 +413,19 @@ class Impl:
             return ps.ObjectiveMaximizeIndicator(target=self.inds[nval(o[1])], weight=zval(o[2]))
         raise ValueError('unknown objective %r' % (h,))
 
-    def run(self, ops):
-        """Execute until the first rejected op. Returns ('ok',) or ('err', idx, exc type)."""
+    def run(self, ops, mid_init_at=None):
+        """Execute until the first rejected op. Returns ('ok',) or ('err', idx, exc type).
+        mid_init_at = k: after op k a solver of the problem built so far is created, initialised and thrown away (an
+        intermediate solve / export must not change what the problem means once it is extended)"""
         for i, op in enumerate(ops):
             try:
                 with contextlib.redirect_stdout(io.StringIO()):
                     self.exec_op(op)
+                    if mid_init_at is not None and i == mid_init_at and self.pb is not None:
+                        try:
+                            ps.SchedulingSolver(problem=self.pb).initialize()
+                        except Exception:
+                            pass
             except (ValueError, TypeError, AssertionError, AttributeError, KeyError, NameError, z3.Z3Exception) as e:
                 if isinstance(e, KeyError) and not _from_library(e):
                     raise
